@@ -193,6 +193,7 @@ def finish(ctx: Ctx, explanation: str, level: str = "other", seed: int = 0) -> i
             "rules": ctx.rules,
             "samples": ctx.samples[:120],
             "units_analysed": stats,
+            "functions_consulted": ctx.program.consulted(),
             "skipped_instances": ctx.skipped,
             "known_findings_reported": sorted(seen),
             "new_violations": [f.as_dict(ctx.prop) for f in new],
